@@ -52,6 +52,24 @@ P = {
          "Verus proves on the real traceparent functions: incoming_traceparent case split (sampler called exactly once iff new root and flags sampled; never for child / continued traces; flags inherited), filters, ctxt open/enter/exit swap contract, with_current id synthesis, push/current; plus the stack lemma",
          "trusted: the two thread-local accessor functions (R15), Props/Ctxt mirrors; trees/threads/futures follow from step contracts + C03 lemma",
          "contract-based deductive verification (Verus with ghost thread-local slot and sampler call log)", "8 C18"),
+
+ "C09": (True, "proof",
+         "Verus proves send keeps |pending| <= capacity for every capacity >= 1 (full => whole queue cleared, item kept, truncation counter +1; straight-line under the lock, never waits), try_send / send_or_wait either enqueue exactly once or hand the item back; and that the emitters' Channel impls (Vec, file EventBatch under its representation invariant, OTLP Channel) meet the same trait contract",
+         "trusted: Mutex (R4); EventBatch push needs the physical fact that buffer lengths sum below usize::MAX; real-time bounds not claimed",
+         "contract-based deductive verification (Verus)", "8 C09"),
+ "C10": (True, "proof",
+         "Verus proves ActiveFile::write_event against a write-fault model (Err => some prefix was appended) incl. the chunk invariant (a complete event only follows start, a complete event or a separator; partial chunks only where a write failed and imply needs_recovery), try_open_reuse/create, the write loop and tail of Worker::on_batch (retry carries the batch with its cursor at the failed event; Ok only after flush and sync_all), and that every queued event ends with the separator",
+         "single-operation write faults; crash points / loss of unsynced suffixes / multi-restart histories are not applicable (need ghost file-system state behind &self); File/Filesystem traits are fault-model mirrors",
+         "contract-based deductive verification (Verus fault-model contracts)", "8 C10"),
+ "C11": (True, "proof",
+         "Verus proves apply_retention total for every max_files >= 0 (kept list is a prefix, deletions are exactly the tail in pop order), is_file_set_member == the name shape prefix.a.b.c.ext with theorems that sets with different prefixes never share a name, the roll predicate, rolling_millis panic-free and < one period, EventBatch bookkeeping",
+         "trusted: format!-built names, read's directory iteration, sort; directory-level statements (files on disk vs. the worker's belief) not reachable; read_file_name_ts (str::rsplit) trusted",
+         "contract-based deductive verification (Verus)", "8 C11"),
+
+ "C17": (True, "proof",
+         "Verus proves MinLevelFilter::matches == (pulled level, else default, else L::default) >= min; the lenient level parser Ok <=> lenient_match for inputs of any length; and for MinLevelPathMap the representation invariant, lookup == filter of the longest registered prefix at :: boundaries (else default, else accept), and insert == view.insert(path, filter) INCLUDING the frame (no other path changes) through the real looping &mut cursor, with lemmas for registration order, repeated registration and sibling prefixes",
+         "trusted: Path::segments as a Vec of segments, binary_search_by_key by its std contract on a sorted slice, Str/Event/Props mirrors, lawful Ord",
+         "contract-based deductive verification (Verus, wand-style prophecy invariant)", "8 C17"),
  "C05": (True, "proof", "Kani proves each SpanGuard operation contract from an arbitrary abstract pre-state (induction over operation sequences), loop-free over full-domain symbolic inputs, on the real crate", "trusted: CBMC/Kani; panic unwinding not modelled (panic=abort); macro expansion of #[span] not covered", "contract-based deductive verification (Kani per-operation contracts from symbolic pre-states; Verus for completion event shape)", "8 C05"),
  "C16": (True, "proof",
          "Verus proves on the real Template::eq (extracted each run, no statement replaced) that it is total and returns exactly equality of the canonical token sequences, "
